@@ -21,6 +21,7 @@ use sv_parser::{
     NodeEvent, PreprocessedText, RefNode, SyntaxTree,
 };
 use sv_parser_parser::verif;
+use sv_parser_syntaxtree::{Iter, RefNodes};
 
 mod node_match {
     use std::convert::TryFrom;
@@ -281,8 +282,24 @@ fn tree_to_json(tree: &SyntaxTree, text: &str, call: &Value) -> Value {
             let un2 = unwrap_node!(n.clone(), Keyword, Symbol).map(|m| tab.id(&m));
             let un3 = unwrap_node!(n.clone(), WhiteSpace).map(|m| tab.id(&m));
             let un4 = unwrap_node!(n.clone(), Expression, Statement, ModuleIdentifier).map(|m| tab.id(&m));
+            // the event view of an iterator that has already been advanced k times, and of an iterator over
+            // several start nodes (the node followed by the next sampled one): Enter sequence = plain iteration
+            let k = 1 + (p + seed as usize) % 3;
+            let mut it1 = n.clone().into_iter();
+            let mut it2 = n.clone().into_iter();
+            for _ in 0..k {
+                it1.next();
+                it2.next();
+            }
+            let adv_rest: Vec<usize> = it1.map(|m| tab.id(&m)).collect();
+            let adv_ev = dump_events(&mut tab, it2.event());
+            let other = &nodes[(p * 7 + 3) % nodes.len()];
+            let multi: RefNodes = vec![n.clone(), other.clone()].into();
+            let multi_it: Vec<usize> = Iter::new(vec![n.clone(), other.clone()].into()).map(|m| tab.id(&m)).collect();
+            let multi_ev = dump_events(&mut tab, Iter::new(multi).event());
             probes.push(json!({"pos": p, "id": id, "sub": sub, "subev": subev, "get_str": gs, "get_str_trim": gst,
-                "unwrap_locate": ul, "unwrap": [un1, un2, un3, un4]}));
+                "unwrap_locate": ul, "unwrap": [un1, un2, un3, un4],
+                "adv": k, "adv_rest": adv_rest, "adv_ev": adv_ev, "other": tab.id(other), "multi_it": multi_it, "multi_ev": multi_ev}));
         }
         out.insert("probes".into(), Value::Array(probes));
         out.insert(
